@@ -83,10 +83,21 @@ def random_bindings(rng, exp):
 def classify(item, miss_r, miss_w):
     """name of the known-finding class a failing statement belongs to, or None"""
     from psyclone.psyir import nodes as N
-    if miss_r or not miss_w:
-        return None
     if item.model != item.real:
         return None       # the committed model does not reproduce it: new
+    if miss_r and not miss_w:
+        # subscripts of the inquired (first) argument of an inquiry intrinsic are evaluated but not reported
+        inq = set()
+        for c in item.node.walk(N.IntrinsicCall):
+            if c.intrinsic.is_inquiry and c.arguments and isinstance(c.arguments[0], N.Reference):
+                for comp in X.sig_indices(c.arguments[0])[1]:
+                    for i in comp:
+                        inq |= {X.sig_indices(r)[0] for r in i.walk(N.Reference)}
+        if inq and set(miss_r) <= inq:
+            return "C11-inquiry-subscripts-not-read"
+        return None
+    if miss_r or not miss_w:
+        return None
     pure_args = set()
     for c in item.node.walk(N.Call):
         if type(c) is N.Call and isinstance(c.parent, N.Schedule) and c.is_pure:
